@@ -174,8 +174,11 @@ def wrap_acquire_real(ctx, rep, rule):
         def on_store_attr(self, ip2, node, obj, attr, val, st, fr, aug=None):
             if attr == qattr:
                 self.stores.append((node, val, st))
+            elif obj == T.SELF and aug is None:
+                self.attrvals.setdefault(attr, []).append(val)
             return None
     cap = Cap()
+    cap.attrvals = {}
     ip2 = Interp(ctx.prog, cap)
     ip2.run(init)
     ctx.stats['functions_analysed'].add(init.qualname)
@@ -196,6 +199,9 @@ def wrap_acquire_real(ctx, rep, rule):
                 if m is None:
                     ok = False
                     why = "queue has no maxsize: the window is unbounded whatever jobs_window says"
+                elif m[0] == 'attr' and m[1] == T.SELF and m[2] in cap.attrvals:
+                    # the bound is read back from an attribute the constructor has just set
+                    sizes.extend(cap.attrvals[m[2]])
                 else:
                     sizes.append(m)
             else:
@@ -255,8 +261,9 @@ def who_may_start(ctx, rep, rule):
             recv = node.func.value
             ok = False
             why = ""
-            if f is r.WRAP and isinstance(par, ast.Await) and isinstance(recv, ast.Name) \
-                    and recv.id == r.wrap_jobvar:
+            if f is r.WRAP_BODY and node is r.wrap_body_await and isinstance(par, ast.Await) \
+                    and isinstance(recv, ast.Name) and (f is not r.WRAP or recv.id == r.wrap_jobvar) \
+                    and (f is r.WRAP or only_used_by(ctx, f, {r.WRAP.qualname})):
                 ok, why = True, "job body awaited inside the window wrapper"
             elif isinstance(recv, ast.Name) and recv.id in p.classes and r.sched in p.classes[recv.id].mro \
                     and isinstance(par, ast.Await) and f is not None and f.name == 'co_run' \
@@ -720,3 +727,61 @@ def exception_truthiness(ctx, rep, rule):
                          "raise`: a critical failure goes unnoticed and the run reports success")
     rep.need(rule, nfun, 2, "functions of the run")
     rep.ok(rule, "%d functions of the run: no exception value used as a boolean" % nfun)
+
+
+# ======================================================= who uses a function
+def users_map(ctx):
+    """qualname -> qualnames of the functions that call it or refer to it (`h = self._helper`), by name
+    resolution over the class hierarchy; cached on the context"""
+    m = getattr(ctx, '_users_map', None)
+    if m is not None:
+        return m
+    from ..effects import callees_by_name
+    p = ctx.prog
+    m = {}
+    for g in p.all_functions():
+        for n in walk_local(g.node):
+            if isinstance(n, ast.Call):
+                for c in callees_by_name(p, g, n):
+                    m.setdefault(c.qualname, set()).add(g.qualname)
+            elif isinstance(n, ast.Attribute) and isinstance(n.ctx, ast.Load):
+                fake = ast.Call(func=n, args=[], keywords=[])
+                for c in callees_by_name(p, g, fake):
+                    if c.name == n.attr:
+                        m.setdefault(c.qualname, set()).add(g.qualname)
+    ctx._users_map = m
+    return m
+
+
+def only_used_by(ctx, f, allowed, _seen=()):
+    """f is one of `allowed` (qualnames), a closure of one, or a private helper all of whose users are"""
+    if f.qualname in allowed:
+        return True
+    g = f.parent
+    while g is not None:
+        if g.qualname in allowed:
+            return True
+        g = g.parent
+    if not f.name.startswith('_') or (f.name.startswith('__') and f.name.endswith('__')) or f.qualname in _seen:
+        return False
+    users = users_map(ctx).get(f.qualname, set())
+    return bool(users) and all(u in ctx.prog.funcs and only_used_by(ctx, ctx.prog.funcs[u], allowed, _seen + (f.qualname,))
+                               for u in users)
+
+
+def topo_loops(ctx, f, depth=2, _seen=None):
+    """the `for x in self.topological_order()` loops of f, or of the private methods it calls on self
+    (helper extraction must not hide the iteration order from the rules)"""
+    _seen = _seen if _seen is not None else set()
+    if f is None or f.qualname in _seen:
+        return []
+    _seen.add(f.qualname)
+    out = [n for n in walk_local(f.node) if isinstance(n, (ast.For, ast.comprehension)) and isinstance(n.iter, ast.Call)
+           and dotted(n.iter.func) == 'self.topological_order']
+    if depth > 0 and f.cls is not None:
+        for n in walk_local(f.node):
+            if isinstance(n, ast.Call) and isinstance(n.func, ast.Attribute) and isinstance(n.func.value, ast.Name) \
+                    and n.func.value.id == 'self' and n.func.attr.startswith('_'):
+                g = ctx.prog.supplier(f.cls, n.func.attr)
+                out += topo_loops(ctx, g, depth - 1, _seen)
+    return out
